@@ -20,7 +20,7 @@ from .pool import CHORD_LABELS
 
 PROP = "C14"
 RUNS = {"quick": 3000, "thorough": 80000}
-RUN_TIMEOUT = 240.0
+RUN_TIMEOUT = 90.0
 VALID, INVALID, UNSPEC = "VALID", "INVALID_CHECKED", "UNSPEC"
 ASSUMPTIONS = [
     "PARTIAL: only annotations that can exist as a stored text file in a documented format are explored; malformations that only "
@@ -335,13 +335,18 @@ def a_events(mod_name, metrics, trim=False):
                                   for m in metrics]
         elif c.verdict == INVALID:
             c.must_raise = [(n, t, c.why) for n, t in calls]
+            if "30000" in c.why:
+                # an implausibly large event time: if the validator under test is broken the metric goes on to
+                # compute on it -- beat.p_score would correlate impulse trains of (time * 100) samples, which does
+                # not terminate in any useful time.  Its siblings share the validator and are cheap: judge those.
+                c.must_raise = [x for x in c.must_raise if not x[0].endswith(".p_score")]
             # evaluate(): onset has no pre-processing; beat drops beats before 5 s first -- if the offence
             # survives that documented trimming, evaluate() must reject it too
             if not trim:
                 c.must_raise.append((ev[0], ev[1], c.why))
             else:
                 rt, et = r[r >= 5.0], e[e >= 5.0]
-                if combine(events_class(rt), events_class(et))[0] == INVALID:
+                if combine(events_class(rt), events_class(et))[0] == INVALID and "30000" not in c.why:
                     c.must_raise.append((ev[0], ev[1], c.why + " (still there after trimming beats before 5 s)"))
                 else:
                     c.type_only = [ev]
